@@ -388,7 +388,8 @@ def _g2(ctx: Context) -> None:
         for n in cfg.nodes:
             if n.kind == "return" and n.exprs:
                 t = ctx.terms.of(cfg, n, n.exprs[0])
-                if contains(t, lambda s: s[0] == "call" and s[1] == ("attr", ("attr", ("param", "self"), "discoveries"), "get")):
+                if contains(t, lambda s: (s[0] == "call" and s[1] == ("attr", ("attr", ("param", "self"), "discoveries"), "get"))
+                            or (s[0] == "sub" and len(s) == 3 and s[1] == ("attr", ("param", "self"), "discoveries"))):  # .get(id) or [id] behind `id in ..`
                     creates = [m.id for m, c in ctx.nodes_calling_name(cfg, "create_future")]
                     if cfg.find_path(cfg.entry.id, n.id, avoid_nodes=creates) is not None:
                         cached = True
